@@ -169,6 +169,9 @@ class ColumnProfile:
 
     def __add__(self, profile: "ColumnProfile") -> "ColumnProfile":
         new_profile = self.deep_copy()
+        # the copy must not keep the histogram this profile loaded for its own estimates:
+        # the sum's estimates would be made from the left operand's values only
+        new_profile.__dict__.pop("distogram", None)
         new_profile.count += profile.count
         new_profile.missing += profile.missing
         new_profile.transitions += profile.transitions + 1
